@@ -110,21 +110,25 @@ structure P4 where
   octets : Nat
   done : List Nat      -- tmp[0 .. tp-tmp)
   cur : Nat            -- *tp
+  nd : Nat             -- digits seen in the current field (F42: `saw_digit` counts them)
 deriving Repr, DecidableEq
 
-def P4.init : P4 := ⟨false, 0, [], 0⟩
+def P4.init : P4 := ⟨false, 0, [], 0, 0⟩
 
+/-- F42: a field has at most three digits (POSIX inet_pton: "ddd ... a one to three digit decimal
+    number between 0 and 255") -/
 def pton4Step (st : P4) (ch : Nat) : Option P4 :=
   if 48 ≤ ch ∧ ch ≤ 57 then
     let nw := st.cur * 10 + (ch - 48)
     if nw > 255 then none
     else if !st.sawDigit then
       if st.octets + 1 > 4 then none
-      else some { st with octets := st.octets + 1, sawDigit := true, cur := nw }
-    else some { st with cur := nw }
+      else some { st with octets := st.octets + 1, sawDigit := true, cur := nw, nd := 1 }
+    else if st.nd + 1 > 3 then none
+    else some { st with cur := nw, nd := st.nd + 1 }
   else if ch = cDot ∧ st.sawDigit then
     if st.octets = 4 then none
-    else some { st with sawDigit := false, done := st.done ++ [st.cur], cur := 0 }
+    else some { st with sawDigit := false, done := st.done ++ [st.cur], cur := 0, nd := 0 }
   else none
 
 def pton4Go : P4 → Bytes → Option P4
